@@ -60,7 +60,8 @@ META = dict(
     "classes or excludes at least one stored row (the discriminator decided something)",
     assumptions=["SQLite 3.40 executes the emitted SQL correctly", "rows are inserted with Core; discriminator values always name a mapped class"],
     bounds=dict(
-        quick="51 hierarchies x abstract x (column discriminator x 5 loading settings + expression discriminator x {none, selectin}); data: one-deviation vectors over {0,1,2} rows per class",
+        quick="51 hierarchies x (column discriminator x 5 loading settings + expression discriminator x {none, selectin}); abstract intermediate "
+        "(polymorphic_abstract) x {col/none, col/selectin, expr/none}, identity-less intermediate x col/none; data: one-deviation vectors over {0,1,2} rows per class",
         thorough="same hierarchies and settings; data: all 3^n vectors of 0..2 rows per class",
     ),
 )
@@ -417,7 +418,9 @@ def configs_for(parents, kinds, tier="thorough"):
                     continue
                 if tier == "quick" and expr and load not in ("none", "selectin"):
                     continue
-                if tier == "quick" and abstract == "noident" and (expr or load not in ("none", "selectin")):
+                if tier == "quick" and abstract == "flag" and (load not in ("none", "selectin") or (expr and load != "none")):
+                    continue
+                if tier == "quick" and abstract == "noident" and (expr or load != "none"):
                     continue
                 yield (parents, kinds, abstract, expr, load)
 
